@@ -134,16 +134,16 @@ Proof.
 Qed.
 
 (* ---- the two lowerings agree on static layouts ----------------------------------------------------- *)
-Theorem lower_dyn_static (src dst : layout) (el so do_ : Z) (smd dmd : rtmd) :
+Lemma lower_dyn_body_static (src dst : layout) (el so do_ : Z) (smd dmd : rtmd) :
   layout_ok src -> layout_ok dst -> equal_tile_bounds src dst = true ->
   offset src = Some so -> offset dst = Some do_ ->
-  lower_dyn src dst el (shape_of src) smd dmd = lower src dst el (shape_of src).
+  lower_dyn_body src dst el (shape_of src) smd dmd = lower_body src dst el (shape_of src).
 Proof.
   intros Hs Hd Hetb Hso Hdo.
   pose proof (equal_tile_bounds_keys src dst Hetb) as Hk.
   assert (Hlen : length (all_strides src) = length (all_strides dst)).
   { rewrite <- !map_snd_entries, !map_length. rewrite <- (map_length fst (entries src)), Hk, map_length. reflexivity. }
-  unfold lower_dyn, lower, off_val. rewrite Hso, Hdo.
+  unfold lower_dyn_body, lower_body, off_val. rewrite Hso, Hdo.
   rewrite (bound_vals_static (tstrides src) Hs (shape_of src)) by (unfold shape_of; apply map_length).
   assert (Hfb : concat (map (map sbnd) (tstrides src)) = map sbnd (all_strides src))
     by (unfold all_strides; rewrite concat_map; reflexivity).
@@ -171,4 +171,13 @@ Proof.
              map (fun x => f (tb (tri_of x), tsrc (tri_of x) * el, tdst (tri_of x) * el)) tail).
   { intros f. apply map_ext_in. intros x Hx. rewrite (pair_ok_vals el x (proj1 (Forall_forall _ _) Ht x Hx)). reflexivity. }
   rewrite (Ev (fun v => fst (fst v))), (Ev (fun v => snd (fst v))), (Ev (fun v => snd v)). reflexivity.
+Qed.
+
+Theorem lower_dyn_static (src dst : layout) (el so do_ : Z) (smd dmd : rtmd) :
+  layout_ok src -> layout_ok dst -> equal_tile_bounds src dst = true ->
+  offset src = Some so -> offset dst = Some do_ ->
+  lower_dyn src dst el (shape_of src) smd dmd = lower src dst el (shape_of src).
+Proof.
+  intros Hs Hd Hetb Hso Hdo. pose proof (lower_dyn_body_static src dst el so do_ smd dmd Hs Hd Hetb Hso Hdo) as H.
+  unfold lower_dyn, lower. destruct (shape_of src); [reflexivity|exact H].
 Qed.
